@@ -24,7 +24,8 @@ def nonce(bn, n):
 
 
 # mock AEADs of harness/src/probe.rs: id -> (Nn, Nt).  RFC 9180 5.2: nonce = base_nonce XOR I2OSP(seq, Nn) for any Nn
-MOCK_NN = {0x7777: (12, 16), 0x7778: (24, 32), 0x7779: (8, 16), 0x777A: (13, 20)}
+MOCK_NN = {0x7777: (12, 16), 0x7778: (24, 32), 0x7779: (8, 16), 0x777A: (13, 20), 0x777B: (12, 16), 0x777C: (12, 16)}
+MOCK_NK = {0x777B: 64}
 
 BN_PATTERNS = ["000000000000000000000000", "ffffffffffffffffffffffff", "0000000000000000ffffffff",
                "ffffffff0000000000000001", "80000000000000007fffffff"]
@@ -302,10 +303,10 @@ def build_probe(env, reps):
     cw = cl.CaseW()
     for r in range(reps):
         kem = gen.KEMS[r % 4]
-        aead = (0x7777, 0x7778, 0x7779, 0x777A)[(r // 2) % 4]
+        aead = (0x7777, 0x7778, 0x7779, 0x777A, 0x777B, 0x777C)[(r // 2) % 6]
         nn = MOCK_NN[aead][0]
         s = cw.session(kem, [1, 3][r % 2], aead, sid="q%d" % r)
-        key, bn = g.raw(32), ((bytes.fromhex(BN_PATTERNS[r % len(BN_PATTERNS)]) * 2)[:nn] if r % 2 else g.raw(nn))
+        key, bn = g.raw(MOCK_NK.get(aead, 32)), ((bytes.fromhex(BN_PATTERNS[r % len(BN_PATTERNS)]) * 2)[:nn] if r % 2 else g.raw(nn))
         s.call("raw_s", key=key, bn=bn, es=g.raw({1: 32, 3: 64}[s.ids[1]]), out="S")
         for p in (0, 254, (1 << 32) - 2, M64 - 6):
             s.call("set_seq", ctx="S", seq=p)
@@ -370,7 +371,7 @@ def run(env):
     matrix = {}
     mtext = build_positions(env, env.pick(30, 200)).text()
     mtext_inplace = build_positions(env, env.pick(30, 200), alloc=False).text()
-    blist = [fw.BUILDS[b] for b in env.pick(("opts", "native", "mix-noalloc-abort-s-native", "mix-std-abort-z"), ("opt0", "opt1", "opts", "optz", "native", "mix-noalloc-abort-s-native", "mix-std-abort-z"))]
+    blist = [fw.BUILDS[b] for b in env.pick(("opts", "native", "mix-noalloc-abort-s-native", "mix-std-abort-z", "noprobe"), ("opt0", "opt1", "opts", "optz", "native", "mix-noalloc-abort-s-native", "mix-std-abort-z", "noprobe"))]
     if not env.quick():
         blist += fw.pairwise_builds()
     for b in blist:
